@@ -239,10 +239,41 @@ Definition load_boards_by_bids (u : user) (bs : list board) : list summary :=
 (* loadHotBoardStat *)
 Definition load_hot_boards (u : user) (bs : list board) : list summary :=
   map (summarize false u) (filter (fun b => b_named b && negb (is_group b) && visible u b) bs).
-(* LoadClassBoards: loadClassBoardStat (children that are themselves classes / links) + showBoardList(true).
-   Only the class without children is exercised by the harness (op 6); it is not among the property's observation points *)
-Definition load_class_boards (u : user) (children : list board) : list summary :=
-  map (summarize true u) (filter (fun b => b_named b && is_group b && visible u b) children).
+(* ------------------------------------------------------------------ class listings *)
+(* loadClassBoardStat: nil (and an error) for a vacated slot or a child that is neither class nor link (ErrInvalidBoard)
+   and for a child the caller may not list (ErrNotPermitted) *)
+Definition load_class_board_stat (u : user) (b : board) : option board :=
+  if negb (b_named b) || negb (is_group b) then None
+  else if negb (visible u b) then None
+  else Some b.
+
+(* LoadClassBoards, the walk along the sibling chain (FirstChild, then Next of the header at hand) collecting at most
+   [cap] = ChildCount + 5 entries. [hdr] is the loop variable `board` whose Next the post statement reads: the code
+   fetches the child's header before deciding ([fetch_first] = true), so it is never nil and the chain is followed
+   also past a child that is skipped. [fetch_first] = false is the loop as it was before repo commit 3b3c8f7 (the
+   header taken from loadClassBoardStat's result): kept only to record what the repair changed. *)
+Fixpoint class_walk (fetch_first : bool) (u : user) (cap : nat) (chain : list board) (acc : list board) : res (list board) :=
+  match chain with
+  | [] => Ok (rev acc)                                                   (* bid <= 0: the chain ends *)
+  | b :: rest =>
+      if (length acc <? cap)%nat then
+        let stat := load_class_board_stat u b in
+        let hdr := if fetch_first then Some b else stat in
+        let acc' := match stat with Some s => s :: acc | None => acc end in    (* eachErr != nil: continue *)
+        match hdr with
+        | Some _ => class_walk fetch_first u cap rest acc'                     (* bid = board.Next[bsortBy] *)
+        | None => Crash
+        end
+      else Ok (rev acc)
+  end.
+(* LoadClassBoards + showBoardList(isParseFolder = true) *)
+Definition load_class_boards (u : user) (childcount : nat) (chain : list board) : res (list summary) :=
+  res_map (map (summarize true u)) (class_walk true u (childcount + 5) chain []).
+(* LoadFullClassBoards: loadClassBoardStat on every board number from the start on, errors skipped; paging belongs to C11 *)
+Definition load_full_class_boards (u : user) (boards : list board) : list summary :=
+  map (summarize true u) (flat_map (fun b => match load_class_board_stat u b with Some s => [s] | None => [] end) boards).
+(* specification: a child appears in a class listing when it is a (named) class or link and the caller may list it *)
+Definition class_listable (u : user) (b : board) : bool := b_named b && is_group b && may_list (row u b).
 (* LoadBoardSummary: always answers; parseBoardSummary masks *)
 Definition load_board_summary (u : user) (b : board) : summary :=
   summarize (negb (Z.land (b_attr b) BRD_GROUPBOARD =? 0)) u b.
@@ -337,12 +368,61 @@ Definition run_content (cb ulevel : Z) (o18 inbm fr nbm : bool) (battr blevel : 
    variant 1: the board of the row is the only candidate. Each listing answers (code, attr, length); last the class
    listing of a class without children. *)
 Definition code3_listing (l : list summary) : list Z := code_listing l ++ [Z.of_nat (length l)].
+Definition code3_class (r : res (list summary)) : list Z :=
+  match r with Ok l => code3_listing l | Crash => [8; -1; 0] | Hang => [2; -1; 0] end.
 Definition run_listing (variant ulevel : Z) (o18 inbm fr nbm : bool) (battr blevel : Z) : list Z :=
   let u := mk_user ulevel o18 in
   let bs := if variant =? 0 then [] else [mk_board 10 true battr blevel inbm fr nbm true] in
   [ST_OK] ++ code3_listing (load_general_boards u bs) ++ code3_listing (load_autocomplete_boards u bs)
   ++ code3_listing (load_boards_by_bids u bs) ++ code3_listing (load_hot_boards u bs)
-  ++ code3_listing (load_class_boards u []).
+  ++ code3_class (load_class_boards u 0 []).
+
+(* op 7: [7; mode; class; sort] user board [lvl] [bid; kind; ...] [bid; attr; level; ...]: the class listings on a planted
+   class tree. The children come in sibling order with their kind (0 the board of the row, 1 unrestricted class, 2 hidden
+   class with restricted mask, 3 class requiring level lvl, 4 over-18 class, 5 ordinary board, 6 vacated slot, 7 the
+   fixture's header, 8 link); the last group holds the fixture's own classes. mode 0: the chain is the one the code's
+   resolver builds (vacated slots are not chained, ChildCount stays 0); mode 1: the chain as planted, ChildCount = its
+   length. Answer: ptt / bbs LoadClassBoards, ptt / bbs LoadFullClassBoards as (code, n, (bid, title, attr) x n), then
+   the sibling chain. *)
+Fixpoint pairs (l : list Z) : list (Z * Z) :=
+  match l with a :: b :: r => (a, b) :: pairs r | _ => [] end.
+Fixpoint triples (l : list Z) : list (Z * (Z * Z)) :=
+  match l with a :: b :: c :: r => (a, (b, c)) :: triples r | _ => [] end.
+Definition fixture_hdr (fx : list (Z * (Z * Z))) (bid : Z) : option (Z * Z) :=
+  option_map snd (find (fun t => fst t =? bid) fx).
+Definition kind_board (fx : list (Z * (Z * Z))) (battr blevel lvl : Z) (inbm fr nbm : bool) (bk : Z * Z) : board :=
+  let (bid, kind) := bk in
+  let plain (named : bool) (attr level : Z) := mk_board bid named attr level false false false true in
+  if kind =? 0 then mk_board bid true battr blevel inbm fr nbm true
+  else if kind =? 1 then plain true BRD_GROUPBOARD 0
+  else if kind =? 2 then plain true (Z.lor BRD_GROUPBOARD (Z.lor BRD_HIDE BRD_POSTMASK)) 0
+  else if kind =? 3 then plain true BRD_GROUPBOARD lvl
+  else if kind =? 4 then plain true (Z.lor BRD_GROUPBOARD BRD_OVER18) 0
+  else if kind =? 5 then plain true 0 0
+  else if kind =? 6 then plain false BRD_GROUPBOARD 0
+  else if kind =? 7 then match fixture_hdr fx bid with Some (a, l) => plain true a l | None => plain false 0 0 end
+  else plain true BRD_SYMBOLIC 0.
+Definition code_entries (l : list summary) : list Z :=
+  flat_map (fun s => [s_bid s; if s_title s then 1 else 2; s_attr s]) l.
+Definition code_class (r : res (list summary)) : list Z :=
+  match r with Ok l => [1; lenZ l] ++ code_entries l | Crash => [8; 0] | Hang => [2; 0] end.
+Definition run_class (mode ulevel : Z) (o18 inbm fr nbm : bool) (battr blevel lvl : Z) (chainZ fixtureZ : list Z) : list Z :=
+  let u := mk_user ulevel o18 in
+  let fx := triples fixtureZ in
+  let children := map (kind_board fx battr blevel lvl inbm fr nbm) (pairs chainZ) in
+  let stored := if mode =? 0 then filter b_named children else children in
+  let cc := if mode =? 0 then 0%nat else length children in
+  let a := code_class (load_class_boards u cc stored) in
+  (* every board of the segment by number: a planted child, else a class of the fixture; the fixture's other boards are no classes *)
+  let all := flat_map (fun bid => match find (fun b => b_bid b =? bid) children with
+                                  | Some b => [b]
+                                  | None => match fixture_hdr fx bid with
+                                            | Some (at_, l) => [mk_board bid true at_ l false false false true]
+                                            | None => []
+                                            end
+                                  end) (map Z.of_nat (seq 1 64)) in
+  let f := code_class (Ok (load_full_class_boards u all)) in
+  [ST_OK] ++ a ++ a ++ f ++ f ++ [lenZ stored] ++ map b_bid stored.
 
 Definition run_case (args : list (list Z)) : list Z :=
   match args with
@@ -351,6 +431,8 @@ Definition run_case (args : list (list Z)) : list Z :=
   | [[4]; [ulevel; o18; inbm; fr; nbm]; [battr; blevel]] => run_helper ulevel (bz o18) (bz inbm) (bz fr) (bz nbm) battr blevel
   | [[5; cb]; [ulevel; o18; inbm; fr; nbm]; [battr; blevel]] => run_content cb ulevel (bz o18) (bz inbm) (bz fr) (bz nbm) battr blevel
   | [[6; v]; [ulevel; o18; inbm; fr; nbm]; [battr; blevel]] => run_listing v ulevel (bz o18) (bz inbm) (bz fr) (bz nbm) battr blevel
+  | [[7; mode; cls; sort]; [ulevel; o18; inbm; fr; nbm]; [battr; blevel]; [lvl]; chain; fx] =>
+      run_class mode ulevel (bz o18) (bz inbm) (bz fr) (bz nbm) battr blevel lvl chain fx
   (* op 2: the abstract row of the numbers, then the specification's verdicts may_read, may_list *)
   | [[2]; [ulevel; o18; inbm; fr; nbm]; [battr; blevel]] =>
       let i := abs ulevel (bz o18) (bz inbm) (bz fr) (bz nbm) battr blevel in
